@@ -319,8 +319,15 @@ func lrHosts(prop string, n int) lrResult {
 		panic(err)
 	}
 	host := func(k int) string { return fmt.Sprintf("tenant-%04d.example", k) }
+	var visitHost func(step, k int, h string)
 	visit := func(step, k int) {
-		h := host(k)
+		visitHost(step, k, host(k))
+		if k%3 == 0 {
+			// the same host written in another letter case is another Host header: the issuer is derived from what THIS request says
+			visitHost(step, k, strings.ToUpper(host(k)))
+		}
+	}
+	visitHost = func(step, k int, h string) {
 		rep := w.Do(world.NewRequest("GET", h, w.Cfg.MetadataPath(), nil, "", nil))
 		c.out("metadata")
 		if rep.Panic != "" || rep.Status != 200 {
